@@ -169,17 +169,19 @@ ADDENDA = {
 ADDENDA2 = {
  "C02": "Later: the distance cascade is PROVED exact on Normalize outputs (compareDistances_exact, compareDistance_exact for 0 <= r2 <= 4; C02_DistanceExact.lean); defect D54 found by the proof and repaired.",
  "C19": "Later: cap AddPoint / AddCap / Union / Expanded proved for binary64 itself on Normalize-grade vectors, exact Contains / Intersects / Complement readings refuted and proved up to explicit allowances (C19_CapBinary64.lean).",
+ "C03": "Later: the no -0 coordinate restriction is removed; FullExactness is a theorem for all unit-ish finite points with Go == (C03_AllZeros.lean).",
+ "C17": "Later: vertex, interior and prefilter error bounds PROVED on UnitPt / EdgeOK, two-sided under the wedge margin (C17_Error.lean); the proof found that MaxPointError is not a bound for all Normalize outputs (known finding D57).",
  "C04": "Later: edge clipping regenerated and proved equal to the build model (translator_c04).",
  "C05": "Later: Cell / CellUnion region predicates tied to the region values of the end-to-end theorems, float region predicates pinned (translator_c07). Defect D56 (Rect.IntersectsCell, edge longitude span) found by the thorough tier and repaired; generator family lens.",
  "C06": "Later: I1 proved without MergeComplete, I3 and 'queries on the built index = brute force' proved under three named statements of exact geometry (C06_BuildI3.lean); "
-        "index construction and padded cells regenerated (translator_c04); defect D52 (shape-id sentinel after Remove) found and repaired; the check also runs the containment paths.",
- "C07": "Later: the relation walk and the polygon relations regenerated as step equations of the model (translator_c07, 357 ties).",
+        "index construction and padded cells regenerated (translator_c04); defect D52 (shape-id sentinel after Remove) found and repaired; the check also runs the containment paths. TrackSound's float clause holds for cells with -0 coordinates too (C06_AllZeros.lean).",
+ "C07": "Later: the relation walk and the polygon relations regenerated as step equations of the model (translator_c07, 357 ties). Walk answers: true is sound, false is exact, raw boolean = crossing or wedge or centre shortcut; compareBoundary walk = exact relation in full, contains / intersects under the single necessary hypothesis CenterSound (C07_WalkSound.lean).",
  "C09": "Later: all 33 decoder functions regenerated as Dec-monad programs and proved EQUAL to the model decoders of the round-trip theorems (translator_c15b).",
  "C10": "Later: bound functions tied / pinned (translator_c07).",
- "C12": "Later: the repaired margin 2*dblEpsilon of Cell.ContainsPoint is PROVED sufficient for every float point and every ancestor (C12_Margin.lean; exactly tight in the proof, 1.25 attained).",
+ "C12": "Later: the repaired margin 2*dblEpsilon of Cell.ContainsPoint is PROVED sufficient for every float point and every ancestor (C12_Margin.lean; exactly tight in the proof, 1.25 attained). Point-target Distance lower bound (2^-46) and MaxDistance upper bound (2^-45) PROVED for all valid cells and unit-ish points; attained in the vertex branch; the edge-branch attained claim is refuted (finding D58) (C12_Distance.lean).",
  "C13": "Later: target objects with their inner state are in the model (C13_Targets.lean), target methods regenerated; footprint obligation for iterator creation sites.",
  "C14": "Later: the footprint of the Go code is a regenerated decidable obligation linked to the proved protocol model (C14_Footprint.lean).",
- "C15": "Later: the IR guards are tied to the regenerated model decoders (C15_Decode).",
+ "C15": "Later: the IR guards are tied to the regenerated model decoders (C15_Decode). Decoded values are PROVED safe to query through the Shape accessors (decodePolygon_usable) and to re-encode (C15_Usable.lean); new correspondence op c15shape.",
  "C16": "Later: after repair D50 bit identity in all 8 argument orders is PROVED as stated for every in-contract input (C16_Canonical.lean); the 8*2^-53 accuracy clause and unit length (10*2^-53) are PROVED outside the D38 class under the explicit StableSide conditions (C16_Accuracy.lean).",
 }
 for _k, _t in ADDENDA2.items():
